@@ -42,6 +42,7 @@ type vSvc struct {
 	f      *vFed
 	fault  func(s *vSvc, call int, in []*requests.Request) ([]map[string]interface{}, error, bool)
 	calls  int
+	dead   bool
 }
 
 type vFed struct {
@@ -83,6 +84,10 @@ func vVarsFor(op *ast.OperationDefinition, given map[string]interface{}) map[str
 }
 
 func (s *vSvc) Query(in []*requests.Request) ([]map[string]interface{}, error) {
+	if s.dead {
+		s.f.log = append(s.f.log, vSub{url: s.url})
+		return nil, fmt.Errorf("no service at %s", s.url)
+	}
 	call := s.calls
 	s.calls++
 	s.f.batch = append(s.f.batch, len(in))
@@ -320,7 +325,8 @@ func vNewFed(w *vWorld, opts []GatewayOption, sdls ...string) *vFed {
 					return s
 				}
 			}
-			return &vSvc{url: url, schema: schemas[0], w: w, f: f}
+			// no such service: what the default factory would build is an HTTP client for a URL nobody serves
+			return &vSvc{url: url, schema: schemas[0], w: w, f: f, dead: true}
 		}))
 	gw, err := NewGateway(urls, opts...)
 	if err != nil {
@@ -455,6 +461,9 @@ func vAssertSame(path string, got, exp interface{}) {
 	case float64:
 		g, ok := got.(float64)
 		verifAssert(ok && g == e, "data"+path+": same number value")
+	case int:
+		g, ok := got.(int)
+		verifAssert(ok && g == e, "data"+path+": same integer value")
 	case bool:
 		g, ok := got.(bool)
 		verifAssert(ok && g == e, "data"+path+": same boolean value")
